@@ -1,1 +1,417 @@
-From AK Require Import LLP.Build.
+(* C01/Lemmas.v -- soundness of the parse loop (LLP/Parse.v) by a stack invariant.
+   Every value collected on the stack is a finished, valid tree of the USER's
+   grammar, except possibly the last child of a production that ends in a
+   suffix symbol: that one is a "suffix node" whose children are the remainder
+   of a user production (relation [expands]).  Completion splices it away. *)
+From Coq Require Import ZArith List Bool Lia.
+From AK Require Import Common.Err LLP.Base LLP.Parse C01.Basics C01.Spec.
+Import ListNotations.
+Local Open Scope nat_scope.
+
+(* ---------------- the tree predicates, Forall form ---------------- *)
+Lemma fold_and_Forall : forall A (P : A -> Prop) l,
+  fold_right (fun c acc => P c /\ acc) True l <-> Forall P l.
+Proof.
+  induction l as [|x l IH]; cbn.
+  - split; auto.
+  - rewrite IH. split.
+    + intros [H1 H2]. now constructor.
+    + intros H. inversion H; subst. now split.
+Qed.
+
+Lemma valid_tree_node : forall ug n ch sp,
+  valid_tree ug (Node n ch sp) <-> In (map tree_name ch) (uprods ug n) /\ Forall (valid_tree ug) ch.
+Proof. intros. cbn [valid_tree]. now rewrite fold_and_Forall. Qed.
+
+Lemma no_helper_node : forall sfxs n ch sp,
+  no_helper sfxs (Node n ch sp) <-> mem n sfxs = false /\ Forall (no_helper sfxs) ch.
+Proof. intros. cbn [no_helper]. now rewrite fold_and_Forall. Qed.
+
+Lemma kinds_ok_node : forall it n ch sp,
+  kinds_ok it (Node n ch sp) <-> it n = false /\ Forall (kinds_ok it) ch.
+Proof. intros. cbn [kinds_ok]. now rewrite fold_and_Forall. Qed.
+
+Lemma no_helper_name : forall sfxs t, no_helper sfxs t -> mem (tree_name t) sfxs = false.
+Proof. intros sfxs [n v sp|n ch sp] H; cbn in *; tauto. Qed.
+
+(* ---------------- expansion of suffix symbols, as a relation ---------------- *)
+Section Expands.
+  Variables (fg : grammar) (sfxs : list sym).
+
+  (* [expands p e]: e is one of the productions that the factorized production p stands for *)
+  Inductive expands : list sym -> list sym -> Prop :=
+  | ex_nil : expands [] []
+  | ex_plain : forall p, p <> [] -> mem (last p []) sfxs = false -> expands p p
+  | ex_sfx : forall p r e, p <> [] -> mem (last p []) sfxs = true ->
+      In r (grules fg (last p [])) -> expands (rprod r) e -> expands p (removelast p ++ e).
+End Expands.
+
+Section Sound.
+  Variables (ug : ugrammar) (fg : grammar) (sfxs : list sym).
+  Variable is_term : sym -> bool.
+  Variable table : sym -> sym -> list rule.
+  Variable toks : list token.
+  Variable start : sym.
+
+  (* what the proof needs of the factorization ... *)
+  Hypothesis Hsound : forall X r e, mem X sfxs = false -> In r (grules fg X) ->
+      expands fg sfxs (rprod r) e -> In e (uprods ug X).
+  Hypothesis Hlast : forall X r, In r (grules fg X) -> only_last_sfx sfxs (rprod r) = true.
+  (* ... of the symbol classes ... *)
+  Hypothesis Hterm : forall s, mem s sfxs = true -> is_term s = false.
+  Hypothesis Hstart : mem start sfxs = false.
+  Hypothesis Hend : is_term END_TOKEN = true.
+  (* ... and of the parse table: nothing but containment in the grammar *)
+  Hypothesis Htbl : forall nt tok r, In r (table nt tok) -> In r (grules fg nt).
+
+  Definition good (v : tree) : Prop := valid_tree ug v /\ no_helper sfxs v /\ kinds_ok is_term v.
+
+  Definition sfx_node (v : tree) : Prop :=
+    match v with
+    | Leaf _ _ _ => False
+    | Node g ch _ => mem g sfxs = true /\ Forall good ch /\
+                     exists r, In r (grules fg g) /\ expands fg sfxs (rprod r) (map tree_name ch)
+    end.
+
+  Definition elem_ok (v : tree) : Prop := good v \/ sfx_node v.
+
+  Record frame_ok (f : frame) : Prop := {
+    fo_ne : falts f <> [];
+    fo_names : map tree_name (fvals f) = firstn (length (fvals f)) (cur_prod f);
+    fo_vals : Forall elem_ok (fvals f);
+    fo_le : fstart f <= fcur f;
+    fo_yield : flat_map leaves (fvals f) = map tok_pair (slice toks (fstart f) (fcur f)) }.
+
+  Definition normal_frame (f : frame) : Prop :=
+    is_term (fsym f) = false /\ forall r, In r (falts f) -> In r (grules fg (fsym f)).
+
+  Definition init_rule : rule := mkRule INIT_SYM [start; END_TOKEN] (-1).
+
+  Definition bottom_frame (f : frame) : Prop :=
+    fsym f = INIT_SYM /\ fstart f = 0 /\ falts f = [init_rule].
+
+  Fixpoint stack_ok (st : list frame) : Prop :=
+    match st with
+    | [] => False
+    | f :: rest =>
+        frame_ok f /\
+        match rest with
+        | [] => bottom_frame f
+        | g :: _ => normal_frame f /\ fstart f = fcur g /\
+                    nth_error (cur_prod g) (length (fvals g)) = Some (fsym f) /\
+                    stack_ok rest
+        end
+    end.
+
+  (* ---------- elementary facts ---------- *)
+  Lemma sfx_not_good : forall v, mem (tree_name v) sfxs = true -> elem_ok v -> sfx_node v.
+  Proof.
+    intros v H [[_ [Hn _]]|Hs]; [|assumption].
+    apply no_helper_name in Hn. congruence.
+  Qed.
+
+  Lemma nonsfx_good : forall v, mem (tree_name v) sfxs = false -> elem_ok v -> good v.
+  Proof.
+    intros v H [Hg|Hs]; [assumption|].
+    destruct v as [n x sp|n ch sp]; cbn in *; [contradiction|]. destruct Hs as [Hs _]. congruence.
+  Qed.
+
+  Lemma sfx_node_leaves : forall v, sfx_node v -> leaves v = flat_map leaves (tree_children v).
+  Proof. intros [n x sp|n ch sp] H; cbn in *; [contradiction|reflexivity]. Qed.
+
+  Lemma fo_len : forall f, frame_ok f -> length (fvals f) <= length (cur_prod f).
+  Proof.
+    intros f H. pose proof (fo_names f H) as E. apply (f_equal (@length _)) in E.
+    rewrite map_length, firstn_length in E. lia.
+  Qed.
+
+  Lemma mk_node_shape : forall f, exists sp, mk_node toks f = Node (fsym f) (fvals f) sp.
+  Proof.
+    intros f. unfold mk_node. destruct (fvals f) as [|v0 vs] eqn:E.
+    - eexists. reflexivity.
+    - destruct (Nat.ltb (fstart f) (fcur f)); eexists; reflexivity.
+  Qed.
+
+  Lemma only_last_sfx_removelast : forall p s, only_last_sfx sfxs p = true -> In s (removelast p) -> mem s sfxs = false.
+  Proof.
+    intros p s H Hs. unfold only_last_sfx in H. rewrite forallb_forall in H.
+    apply H in Hs. now apply negb_true_iff in Hs.
+  Qed.
+
+  (* children whose names are not suffix symbols are finished trees *)
+  Lemma elems_good : forall vs, Forall elem_ok vs ->
+    (forall s, In s (map tree_name vs) -> mem s sfxs = false) -> Forall good vs.
+  Proof.
+    intros vs H Hn. rewrite Forall_forall in *. intros v Hv.
+    apply nonsfx_good; [|now apply H]. apply Hn. now apply in_map.
+  Qed.
+
+  (* ---------- completion of a production: splice ---------- *)
+  (* the children of the completed (and spliced) element: finished trees whose
+     names are an expansion of the production, with the same leaves *)
+  Lemma splice_children : forall X p vs sp,
+    only_last_sfx sfxs p = true -> Forall elem_ok vs -> map tree_name vs = p ->
+    exists ch, splice sfxs p (Node X vs sp) = Node X ch sp /\ Forall good ch /\
+               expands fg sfxs p (map tree_name ch) /\ flat_map leaves ch = flat_map leaves vs.
+  Proof.
+    intros X p vs sp Hl0 Hv Hn. unfold splice.
+    pose proof (only_last_sfx_removelast p) as Hl. specialize (fun s => Hl s Hl0). clear Hl0.
+    destruct p as [|s0 p0] eqn:Ep.
+    - destruct vs; [|discriminate]. exists []. repeat split; constructor.
+    - rewrite <- Ep in *. assert (Hne : p <> []) by (rewrite Ep; discriminate).
+      clear Ep s0 p0.
+      destruct (mem (last p []) sfxs) eqn:Em.
+      + (* trailing suffix symbol: vs = vs0 ++ [vl], vl a suffix node *)
+        destruct (snoc_cases _ p) as [->|[p' [g ->]]]; [contradiction|].
+        apply map_snoc_inv in Hn as [vs0 [vl [-> [Hn0 Hg]]]].
+        rewrite last_snoc in Em. rewrite removelast_snoc in Hl.
+        apply Forall_app in Hv as [Hv0 Hvl]. apply Forall_inv in Hvl.
+        assert (Hs : sfx_node vl) by (apply sfx_not_good; [rewrite Hg|]; assumption).
+        assert (Hg0 : Forall good vs0).
+        { apply elems_good; [assumption|]. intros s Hs'. rewrite Hn0 in Hs'.
+          now apply Hl. }
+        rewrite removelast_snoc, last_snoc.
+        exists (vs0 ++ tree_children vl). split; [reflexivity|].
+        destruct vl as [n x sp'|n ch sp']; cbn in Hs; [contradiction|].
+        destruct Hs as [_ [Hch [r [Hr He]]]]. cbn [tree_children tree_name] in *. subst g p'.
+        split; [|split].
+        * apply Forall_app. now split.
+        * rewrite map_app.
+          pose proof (ex_sfx fg sfxs (map tree_name vs0 ++ [n]) r (map tree_name ch)) as E.
+          rewrite last_snoc, removelast_snoc in E. apply E; assumption.
+        * rewrite !flat_map_app. cbn [flat_map leaves]. now rewrite app_nil_r.
+      + (* no suffix symbol at all *)
+        exists vs. split; [reflexivity|]. split; [|split; [|reflexivity]].
+        * apply elems_good; [assumption|]. intros s Hs. rewrite Hn in Hs.
+          destruct (snoc_cases _ p) as [->|[p' [g ->]]]; [contradiction|].
+          rewrite last_snoc in Em. rewrite removelast_snoc in Hl.
+          apply in_app_or in Hs as [Hs|[<-|[]]]; [|assumption].
+          now apply Hl.
+        * rewrite Hn. now apply ex_plain.
+  Qed.
+
+  (* the element built for symbol X from such children *)
+  Lemma node_elem_ok : forall X r ch sp,
+    is_term X = false -> In r (grules fg X) -> Forall good ch ->
+    expands fg sfxs (rprod r) (map tree_name ch) -> elem_ok (Node X ch sp).
+  Proof.
+    intros X r ch sp Ht Hr Hch He. destruct (mem X sfxs) eqn:Em.
+    - right. cbn. split; [assumption|]. split; [assumption|]. now exists r.
+    - left. unfold good. rewrite valid_tree_node, no_helper_node, kinds_ok_node.
+      rewrite Forall_forall in Hch. repeat split; try assumption.
+      + eapply Hsound; eassumption.
+      + rewrite Forall_forall. intros v Hv. now apply Hch.
+      + rewrite Forall_forall. intros v Hv. now apply Hch.
+      + rewrite Forall_forall. intros v Hv. now apply Hch.
+  Qed.
+
+  Lemma complete_frame : forall f cur more,
+    frame_ok f -> falts f = cur :: more -> length (fvals f) = length (rprod cur) ->
+    only_last_sfx sfxs (rprod cur) = true ->
+    exists ch sp, splice sfxs (rprod cur) (mk_node toks f) = Node (fsym f) ch sp /\ Forall good ch /\
+                  expands fg sfxs (rprod cur) (map tree_name ch) /\
+                  flat_map leaves ch = flat_map leaves (fvals f).
+  Proof.
+    intros f cur more Hf Ea El Hl.
+    destruct (mk_node_shape f) as [sp ->].
+    pose proof (fo_names f Hf) as Hn. unfold cur_prod in Hn. rewrite Ea, El, firstn_all in Hn.
+    destruct (splice_children (fsym f) (rprod cur) (fvals f) sp Hl (fo_vals f Hf) Hn) as [ch [E [H1 [H2 H3]]]].
+    now exists ch, sp.
+  Qed.
+
+  (* ---------- roll-back ---------- *)
+  Lemma rollback_ok : forall st st', stack_ok st -> rollback st = Some st' -> stack_ok st'.
+  Proof.
+    induction st as [|f rest IH]; intros st' Hs Hr; [discriminate|].
+    cbn [rollback] in Hr. cbn [stack_ok] in Hs. destruct Hs as [Hf Hrest].
+    destruct (falts f) as [|r1 [|r2 more]] eqn:Ea.
+    - destruct rest as [|g rest']; [discriminate|]. apply IH; [|assumption]. tauto.
+    - destruct rest as [|g rest']; [discriminate|]. apply IH; [|assumption]. tauto.
+    - injection Hr as <-. cbn [stack_ok]. split.
+      + constructor; cbn [falts fvals fstart fcur].
+        * discriminate.
+        * reflexivity.
+        * constructor.
+        * lia.
+        * now rewrite slice_nil.
+      + destruct rest as [|g rest'].
+        * destruct Hrest as [_ [_ Hb]]. congruence.
+        * destruct Hrest as [[Ht Hn] [Hst [Hnth Hrest]]]. cbn [fsym fstart falts]. split; [|tauto].
+          split; [assumption|]. intros r Hr. apply Hn. rewrite Ea. now right.
+  Qed.
+
+  (* ---------- one step ---------- *)
+  Lemma next_matched_ok : forall f v newpos s,
+    frame_ok f -> nth_error (cur_prod f) (length (fvals f)) = Some s -> tree_name v = s ->
+    elem_ok v -> fcur f <= newpos ->
+    leaves v = map tok_pair (slice toks (fcur f) newpos) ->
+    frame_ok (next_matched f v newpos).
+  Proof.
+    intros f v newpos s Hf Hnth Hname Hv Hle Hy.
+    constructor; cbn [next_matched falts fvals fstart fcur].
+    - apply (fo_ne f Hf).
+    - replace (cur_prod (next_matched f v newpos)) with (cur_prod f) by reflexivity.
+      rewrite map_app, app_length. cbn [map length]. rewrite Nat.add_1_r.
+      rewrite (firstn_snoc_nth _ _ _ _ Hnth), (fo_names f Hf), Hname. reflexivity.
+    - apply Forall_app. split; [apply (fo_vals f Hf)|]. now constructor.
+    - pose proof (fo_le f Hf). lia.
+    - rewrite flat_map_app. cbn [flat_map]. rewrite app_nil_r, (fo_yield f Hf), Hy, <- map_app.
+      f_equal. apply slice_app; [apply (fo_le f Hf)|assumption].
+  Qed.
+
+  Lemma stack_ok_replace_top : forall f f' rest,
+    stack_ok (f :: rest) -> frame_ok f' ->
+    fsym f' = fsym f -> fstart f' = fstart f -> falts f' = falts f ->
+    stack_ok (f' :: rest).
+  Proof.
+    intros f f' rest Hs Hf' E1 E2 E3. cbn [stack_ok] in *. destruct Hs as [_ Hs]. split; [assumption|].
+    destruct rest as [|g rest'].
+    - unfold bottom_frame in *. now rewrite E1, E2, E3.
+    - unfold normal_frame in *. now rewrite E1, E2, E3.
+  Qed.
+
+  Lemma step_ok : forall st st', stack_ok st -> step is_term table sfxs toks st = Running st' -> stack_ok st'.
+  Proof.
+    intros st st' Hs Hstep. destruct st as [|top rest]; [discriminate|].
+    cbn [step] in Hstep. destruct (falts top) as [|cur more] eqn:Ea; [discriminate|].
+    pose proof Hs as Hs0. cbn [stack_ok] in Hs. destruct Hs as [Hf Hrest].
+    destruct (Nat.eqb (length (fvals top)) (length (rprod cur))) eqn:El.
+    - (* production matched *)
+      apply Nat.eqb_eq in El.
+      destruct rest as [|par rest'].
+      + destruct (tree_children _) as [|? [|? [|? ?]]]; discriminate.
+      + injection Hstep as <-.
+        destruct Hrest as [[Ht Hn] [Hst [Hnth Hrest]]].
+        assert (Hr : In cur (grules fg (fsym top))) by (apply Hn; rewrite Ea; now left).
+        destruct (complete_frame top cur more Hf Ea El (Hlast _ _ Hr)) as [ch [sp [E [Hch [He Hy]]]]].
+        rewrite E.
+        assert (Hpar : frame_ok par) by (destruct rest'; cbn [stack_ok] in Hrest; tauto).
+        apply stack_ok_replace_top with (f := par); try reflexivity; [assumption|].
+        apply next_matched_ok with (s := fsym top); try assumption.
+        * reflexivity.
+        * eapply node_elem_ok; eassumption.
+        * rewrite <- Hst. apply (fo_le top Hf).
+        * cbn [leaves]. rewrite Hy, (fo_yield top Hf), Hst. reflexivity.
+    - destruct (nth_error toks (fcur top)) as [tk|] eqn:Etk; [|discriminate].
+      destruct (nth_error (rprod cur) (length (fvals top))) as [cs|] eqn:Ecs; [|discriminate].
+      assert (Hcs : nth_error (cur_prod top) (length (fvals top)) = Some cs)
+        by (unfold cur_prod; now rewrite Ea).
+      destruct (is_term cs) eqn:Eterm.
+      + destruct (sym_eqb (tname tk) cs) eqn:Enm.
+        * (* terminal matched *)
+          injection Hstep as <-. apply sym_eqb_eq in Enm.
+          apply stack_ok_replace_top with (f := top); try reflexivity; [assumption|].
+          apply next_matched_ok with (s := cs); try assumption.
+          -- reflexivity.
+          -- left. unfold good. cbn. repeat split; [|assumption].
+             destruct (mem cs sfxs) eqn:Em; [|reflexivity]. apply Hterm in Em. congruence.
+          -- lia.
+          -- cbn [leaves]. rewrite (slice_snoc _ toks (fcur top) (fcur top) tk) by (try lia; assumption).
+             rewrite slice_nil. cbn. unfold tok_pair. now rewrite Enm.
+        * destruct (rollback (top :: rest)) as [st1|] eqn:Er; [|discriminate].
+          injection Hstep as <-. eapply rollback_ok; eassumption.
+      + destruct (table cs (tname tk)) as [|r0 rs] eqn:Etab.
+        * destruct (rollback (top :: rest)) as [st1|] eqn:Er; [|discriminate].
+          injection Hstep as <-. eapply rollback_ok; eassumption.
+        * (* expansion *)
+          injection Hstep as <-. cbn [stack_ok]. split; [|split; [|split; [|split]]].
+          -- constructor; cbn [falts fvals fstart fcur].
+             ++ discriminate.
+             ++ reflexivity.
+             ++ constructor.
+             ++ lia.
+             ++ now rewrite slice_nil.
+          -- split; cbn [fsym falts]; [assumption|]. intros r Hr. apply (Htbl cs (tname tk)). now rewrite Etab.
+          -- reflexivity.
+          -- cbn [fsym]. assumption.
+          -- assumption.
+  Qed.
+
+  (* ---------- the result ---------- *)
+  (* what a finished parse returns *)
+  Definition result_ok (t : tree) : Prop :=
+    tree_name t = start /\ good t /\
+    exists n tk, nth_error toks n = Some tk /\ tname tk = END_TOKEN /\
+                 leaves t = map tok_pair (firstn n toks).
+
+  Lemma end_not_sfx : mem END_TOKEN sfxs = false.
+  Proof. destruct (mem END_TOKEN sfxs) eqn:E; [|reflexivity]. apply Hterm in E. congruence. Qed.
+
+  Lemma step_done : forall st t, stack_ok st -> step is_term table sfxs toks st = Done t -> result_ok t.
+  Proof.
+    intros st t Hs Hstep. destruct st as [|top rest]; [discriminate|].
+    cbn [step] in Hstep. destruct (falts top) as [|cur more] eqn:Ea; [discriminate|].
+    cbn [stack_ok] in Hs. destruct Hs as [Hf Hrest].
+    destruct (Nat.eqb (length (fvals top)) (length (rprod cur))) eqn:El.
+    2:{ destruct (nth_error toks (fcur top)); [|discriminate].
+        destruct (nth_error (rprod cur) (length (fvals top))); [|discriminate].
+        destruct (is_term l).
+        - destruct (sym_eqb (tname t0) l); [discriminate|]. destruct (rollback (top :: rest)); discriminate.
+        - destruct (table l (tname t0)); [|discriminate]. destruct (rollback (top :: rest)); discriminate. }
+    apply Nat.eqb_eq in El.
+    destruct rest as [|par rest']; [|discriminate].
+    destruct Hrest as [Hsym [Hst0 Halts]]. rewrite Ea in Halts. injection Halts as -> ->.
+    cbn [init_rule rprod] in *.
+    pose proof (fo_names top Hf) as Hn. unfold cur_prod in Hn. rewrite Ea, El in Hn. cbn [rprod init_rule length firstn] in Hn.
+    destruct (mk_node_shape top) as [sp E]. rewrite E in Hstep.
+    unfold splice in Hstep. cbn [last] in Hstep. rewrite end_not_sfx in Hstep. cbn [tree_children] in Hstep.
+    destruct (fvals top) as [|root [|e [|? ?]]] eqn:Ev; try discriminate.
+    injection Hstep as <-. cbn [map] in Hn. injection Hn as Hn1 Hn2.
+    pose proof (fo_vals top Hf) as Hv. rewrite Ev in Hv.
+    inversion Hv as [|? ? Hroot Hv']; subst. inversion Hv' as [|? ? He _]; subst.
+    apply nonsfx_good in Hroot; [|now rewrite Hn1].
+    apply nonsfx_good in He; [|rewrite Hn2; apply end_not_sfx].
+    split; [assumption|]. split; [assumption|].
+    pose proof (fo_yield top Hf) as Hy. rewrite Ev, Hst0, slice_0 in Hy. cbn [flat_map] in Hy. rewrite app_nil_r in Hy.
+    destruct e as [en ev esp|en ech esp].
+    2:{ destruct He as [_ [_ Hk]]. cbn in Hk, Hn2. destruct Hk as [Hk _]. rewrite Hn2 in Hk. congruence. }
+    cbn [leaves tree_name] in *.
+    symmetry in Hy. apply map_snoc_inv in Hy as [l0 [tk [Hl [Hm Hp]]]].
+    exists (length l0), tk.
+    assert (Hfn : firstn (length l0) toks = l0 /\ nth_error toks (length l0) = Some tk).
+    { rewrite <- (firstn_skipn (fcur top) toks) at 1 2. rewrite Hl. split.
+      - rewrite <- app_assoc, firstn_app, firstn_all, Nat.sub_diag. cbn. now rewrite app_nil_r.
+      - rewrite <- app_assoc, nth_error_app2 by lia. now rewrite Nat.sub_diag. }
+    destruct Hfn as [Hfn Hnth]. split; [assumption|]. split.
+    - unfold tok_pair in Hp. injection Hp as Hp _. now rewrite Hp.
+    - now rewrite Hfn.
+  Qed.
+
+  Lemma run_pow_ok : forall k st st', stack_ok st ->
+    run_pow is_term table sfxs toks k st = Running st' -> stack_ok st'.
+  Proof.
+    induction k as [|k IH]; intros st st' Hs Hr; cbn [run_pow] in Hr.
+    - eapply step_ok; eassumption.
+    - destruct (run_pow is_term table sfxs toks k st) as [st1| | |] eqn:E; try discriminate.
+      eapply IH; [|eassumption]. eapply IH; eassumption.
+  Qed.
+
+  Lemma run_pow_done : forall k st t, stack_ok st ->
+    run_pow is_term table sfxs toks k st = Done t -> result_ok t.
+  Proof.
+    induction k as [|k IH]; intros st t Hs Hr; cbn [run_pow] in Hr.
+    - eapply step_done; eassumption.
+    - destruct (run_pow is_term table sfxs toks k st) as [st1|t1| |] eqn:E; try discriminate.
+      + eapply IH; [|eassumption]. eapply run_pow_ok; eassumption.
+      + injection Hr as <-. eapply IH; eassumption.
+  Qed.
+
+  Lemma init_stack_ok : stack_ok (init_stack start).
+  Proof.
+    unfold init_stack. cbn [stack_ok]. split.
+    - constructor; cbn [falts fvals fstart fcur].
+      + discriminate.
+      + reflexivity.
+      + constructor.
+      + lia.
+      + now rewrite slice_nil.
+    - repeat split.
+  Qed.
+
+  Lemma parse_result_ok : forall k t, parse is_term table sfxs toks k start = Ok t -> result_ok t.
+  Proof.
+    intros k t H. unfold parse in H.
+    destruct (run_pow is_term table sfxs toks k (init_stack start)) as [st1|t1| |] eqn:E; try discriminate.
+    injection H as <-. eapply run_pow_done; [apply init_stack_ok|eassumption].
+  Qed.
+End Sound.
